@@ -102,9 +102,7 @@ impl Stringify for Template {
             let nodes = &t.content;
             if nodes.len() > 0 {
                 stringifier.write_str(r#">"#)?;
-                for node in nodes {
-                    node.stringify_write(stringifier)?;
-                }
+                write_nodes(nodes, stringifier)?;
                 stringifier.write_token(
                     r#"<"#,
                     None,
@@ -122,9 +120,7 @@ impl Stringify for Template {
                 stringifier.write_token(">", None, &tag_location.start.1)?;
             }
         }
-        for node in self.content.iter() {
-            node.stringify_write(stringifier)?;
-        }
+        write_nodes(&self.content, stringifier)?;
         stringifier.scope_names.clear();
         Ok(())
     }
@@ -156,6 +152,43 @@ impl Stringify for Node {
         }
         Ok(())
     }
+}
+
+/// Whether the printed form of a piece of a text value starts with `{`.
+fn expr_starts_with_brace(expr: &Expression) -> bool {
+    match expr {
+        Expression::LitStr { value, .. } => value.starts_with('{'),
+        Expression::Plus { left, .. } => expr_starts_with_brace(left),
+        _ => true,
+    }
+}
+
+/// Whether the printed form of a text value starts with `{`.
+fn value_starts_with_brace(value: &Value) -> bool {
+    match value {
+        Value::Static { value, .. } => value.starts_with('{'),
+        Value::Dynamic { expression, .. } => expr_starts_with_brace(expression),
+    }
+}
+
+/// Write a node list.
+///
+/// Comments are not printed, so two text nodes may become neighbours:
+/// a `{` at the end of the first must not join a `{` at the start of the second.
+fn write_nodes<'s, W: FmtWrite>(nodes: &[Node], stringifier: &mut Stringifier<'s, W>) -> FmtResult {
+    let mut iter = nodes
+        .iter()
+        .filter(|n| !matches!(n, Node::Comment(..)))
+        .peekable();
+    while let Some(node) = iter.next() {
+        if let (Node::Text(..), Some(Node::Text(next))) = (node, iter.peek()) {
+            stringifier.brace_follows = value_starts_with_brace(next);
+        }
+        let r = node.stringify_write(stringifier);
+        stringifier.brace_follows = false;
+        r?;
+    }
+    Ok(())
 }
 
 fn is_children_empty(children: &[Node]) -> bool {
@@ -397,9 +430,7 @@ impl Stringify for Element {
                 write_named_attr(stringifier, name, loc, value)?;
                 if !is_children_empty(children) {
                     stringifier.write_token(">", None, &self.tag_location.start.1)?;
-                    for child in children {
-                        child.stringify_write(stringifier)?;
-                    }
+                    write_nodes(children, stringifier)?;
                     stringifier.write_token(
                         "<",
                         None,
@@ -434,9 +465,7 @@ impl Stringify for Element {
                 stringifier.write_token("wx:else", None, loc)?;
                 if !is_children_empty(children) {
                     stringifier.write_token(">", None, &self.tag_location.start.1)?;
-                    for child in children {
-                        child.stringify_write(stringifier)?;
-                    }
+                    write_nodes(children, stringifier)?;
                     stringifier.write_token(
                         "<",
                         None,
@@ -651,9 +680,7 @@ impl Stringify for Element {
         let children = self.children().unwrap_or(&empty_children);
         if !is_children_empty(children) {
             stringifier.write_token(">", None, &self.tag_location.start.1)?;
-            for child in children {
-                child.stringify_write(stringifier)?;
-            }
+            write_nodes(children, stringifier)?;
             stringifier.write_token(
                 "<",
                 None,
@@ -709,8 +736,12 @@ impl Stringify for Value {
     fn stringify_write<'s, W: FmtWrite>(&self, stringifier: &mut Stringifier<'s, W>) -> FmtResult {
         match self {
             Self::Static { value, location } => {
-                let quoted = escape_html_body(&value);
-                stringifier.write_token(&format!("{}", quoted), None, &location)?;
+                let mut quoted = escape_html_body(&value).into_owned();
+                if stringifier.brace_follows && quoted.ends_with('{') {
+                    quoted.pop();
+                    quoted.push_str("&#123;");
+                }
+                stringifier.write_token(&quoted, None, &location)?;
             }
             Self::Dynamic {
                 expression,
@@ -722,12 +753,13 @@ impl Stringify for Value {
                     stringifier: &mut Stringifier<'s, W>,
                     start_location: &Range<Position>,
                     end_location: &Range<Position>,
+                    brace_follows: bool,
                 ) -> FmtResult {
                     match expr {
                         Expression::LitStr { value, location } => {
                             let mut quoted = escape_html_body(value).into_owned();
-                            if quoted.ends_with('{') {
-                                // (a binding may follow: `{` + `{{` would be read back differently)
+                            if brace_follows && quoted.ends_with('{') {
+                                // (`{` + `{{` would be read back differently)
                                 quoted.pop();
                                 quoted.push_str("&#123;");
                             }
@@ -759,8 +791,20 @@ impl Stringify for Value {
                             }
                             let split = is_piece(left) && is_piece(right);
                             if split {
-                                split_expression(&left, stringifier, start_location, location)?;
-                                split_expression(&right, stringifier, location, end_location)?;
+                                split_expression(
+                                    &left,
+                                    stringifier,
+                                    start_location,
+                                    location,
+                                    expr_starts_with_brace(right),
+                                )?;
+                                split_expression(
+                                    &right,
+                                    stringifier,
+                                    location,
+                                    end_location,
+                                    brace_follows,
+                                )?;
                                 return Ok(());
                             }
                         }
@@ -771,11 +815,13 @@ impl Stringify for Value {
                     stringifier.write_token("}}", None, &end_location)?;
                     Ok(())
                 }
+                let brace_follows = stringifier.brace_follows;
                 split_expression(
                     &expression,
                     stringifier,
                     &double_brace_location.0,
                     &double_brace_location.1,
+                    brace_follows,
                 )?;
             }
         }
